@@ -439,10 +439,17 @@ def prepare(pid):
 
 
 def release(env):
-    try:
-        os.remove(env["exe"])
-    except OSError:
-        pass
+    """remove what this process created under .cache (its harness binary, its Coq case files): names carry its own tag only"""
+    import glob
+    paths = [env["exe"]]
+    if env.get("tag"):
+        paths += glob.glob(os.path.join(common.CACHE, "cases", "lanewords_%s_*" % env["tag"])) + \
+                 glob.glob(os.path.join(common.CACHE, "cases", ".lanewords_%s_*" % env["tag"]))
+    for q in paths:
+        try:
+            os.remove(q)
+        except OSError:
+            pass
 
 
 def fail_lines(stdout):
